@@ -1207,6 +1207,49 @@ static bool compile_builtin_call(CG *cg, ASTNode *node) {
         emit_op(cg, OP_HM_LEN);
         return true;
     }
+    /* map_clear(m) - there is no clear instruction: delete every key */
+    if (strcmp(name, "map_clear") == 0 && argc == 1) {
+        compile_expr(cg, args[0]);
+        uint16_t map_slot = local_add(cg, "__clear_map__", 0);
+        emit_op(cg, OP_STORE_LOCAL, (int)map_slot);
+
+        emit_op(cg, OP_LOAD_LOCAL, (int)map_slot);
+        emit_op(cg, OP_HM_KEYS);
+        uint16_t keys_slot = local_add(cg, "__clear_keys__", 0);
+        emit_op(cg, OP_STORE_LOCAL, (int)keys_slot);
+
+        emit_op(cg, OP_PUSH_I64, (int64_t)0);
+        uint16_t idx_slot = local_add(cg, "__clear_i__", 0);
+        emit_op(cg, OP_STORE_LOCAL, (int)idx_slot);
+
+        uint32_t loop_top = cg->code_size;
+        emit_op(cg, OP_LOAD_LOCAL, (int)idx_slot);
+        emit_op(cg, OP_LOAD_LOCAL, (int)keys_slot);
+        emit_op(cg, OP_ARR_LEN);
+        emit_op(cg, OP_LT);
+        uint32_t jf_instr = cg->code_size;
+        uint32_t jf_off = emit_op(cg, OP_JMP_FALSE, (int32_t)0);
+
+        emit_op(cg, OP_LOAD_LOCAL, (int)map_slot);
+        emit_op(cg, OP_LOAD_LOCAL, (int)keys_slot);
+        emit_op(cg, OP_LOAD_LOCAL, (int)idx_slot);
+        emit_op(cg, OP_ARR_GET);
+        emit_op(cg, OP_HM_DELETE);
+        emit_op(cg, OP_POP);
+
+        emit_op(cg, OP_LOAD_LOCAL, (int)idx_slot);
+        emit_op(cg, OP_PUSH_I64, (int64_t)1);
+        emit_op(cg, OP_ADD);
+        emit_op(cg, OP_STORE_LOCAL, (int)idx_slot);
+
+        uint32_t jmp_instr = cg->code_size;
+        emit_op(cg, OP_JMP, (int32_t)0);
+        patch_jump(cg, jmp_instr + 1, jmp_instr, loop_top);
+        patch_jump(cg, jf_off + 1, jf_instr, cg->code_size);
+
+        emit_op(cg, OP_PUSH_VOID);
+        return true;
+    }
 
     /* string_to_int / string_to_float - parse string to number */
     if (strcmp(name, "string_to_int") == 0 && argc == 1) {
